@@ -665,6 +665,8 @@ func main() {
 		var out interface{}
 		if parts[1] == "pool" {
 			out = poolStorm(o.Seed, idx, o.Thorough())
+		} else if parts[1] == "multi" {
+			out = multiPool(o.Seed, idx, o.Thorough())
 		} else if parts[1] == "idle" {
 			out = poolIdle(o.Seed, idx, o.Thorough())
 		} else if parts[1] == "hammer" {
@@ -717,6 +719,13 @@ func main() {
 	for i := 0; i < nidle; i++ {
 		jobs = append(jobs, &job{what: "idle", idx: i})
 	}
+	nmulti := 4 // several pools, sized under a small GOMAXPROCS, used after it was raised (multipool.go)
+	if th {
+		nmulti = 30
+	}
+	for i := 0; i < nmulti; i++ {
+		jobs = append(jobs, &job{what: "multi", idx: i})
+	}
 	sem := make(chan struct{}, 3)
 	var jwg sync.WaitGroup
 	for _, j := range jobs {
@@ -733,7 +742,7 @@ func main() {
 
 	totalEvents, totalGC, totalPC, stolenRuns, totalAbove := 0, 0, 0, 0, 0
 	var hammerOps int64
-	idleRuns, idleDropped := 0, 0
+	idleRuns, idleDropped, multiRuns := 0, 0, 0
 	type pcase struct {
 		term, label string
 		replay      interface{}
@@ -750,8 +759,31 @@ func main() {
 		if j.what == "idle" {
 			label = "pool/idle-then-collect"
 		}
+		if j.what == "multi" {
+			label = "pool/several pools across a GOMAXPROCS ladder"
+		}
 		if j.err != nil {
 			w.Violation(label, "the code under test crashed or hung in a child process", map[string]interface{}{"child": fmt.Sprintf("%s:%d", j.what, j.idx), "error": j.err.Error(), "stderr": j.tail, "seed": o.Seed})
+			continue
+		}
+		if j.what == "multi" {
+			var r multiResult
+			if err := json.Unmarshal(j.out, &r); err != nil {
+				w.Violation(label, "child output unreadable", map[string]interface{}{"error": err.Error(), "stderr": j.tail})
+				continue
+			}
+			multiRuns++
+			meta := map[string]interface{}{"child": fmt.Sprintf("multi:%d", j.idx), "seed": o.Seed, "pools": len(r.Pools), "sized_under_gomaxprocs": r.Lo,
+				"raised_to": r.Hi, "full_blocks_in_shared_chains_after_fill": r.Overflow}
+			if r.Foreign > 0 {
+				w.Violation(label, "Get returned an object that was never put into this pool nor made by its New (or one that is still owned)",
+					map[string]interface{}{"count": r.Foreign, "example": r.Detail, "run": meta})
+			}
+			for k, pr := range r.Pools {
+				totalEvents += len(pr.Events)
+				m2 := map[string]interface{}{"pool": k, "events": len(pr.Events), "run": meta}
+				pcs = append(pcs, pcase{histTerm(pr), label, m2})
+			}
 			continue
 		}
 		if j.what == "hammer" {
@@ -849,6 +881,7 @@ func main() {
 	// ---- the ring and the chain of rings behind the pool's shared / unused chains ----
 	emitDeque(w, rng.Fork(), th, o.Seed)
 	w.Notes["idle_then_collect_runs"] = idleRuns
+	w.Notes["several_pools_ladder_runs"] = multiRuns
 	w.Notes["idle_then_collect_runs_where_gc_dropped_chains"] = idleDropped
 	w.Notes["pool_history_events"] = totalEvents
 	w.Notes["hammer_get_put_calls_flag_checked"] = hammerOps
